@@ -477,3 +477,67 @@ def check_scan_semantics(ctx, rid, table_agreement=True):
             continue
         ctx.ob(rid, f'scan:{kind}', loc, f'Lexer.get_tokens agrees with the table model on {len(texts)} short texts', False,
                f'{len(items)} text(s): {kind}, e.g. {items[:3]}')
+
+
+def check_who_reconfigures(ctx, rid, entries):
+    """The default lexer is process-wide.  Its configuration methods (add_keywords, clear, set_SQL_REGEX, default_initialization and
+    any other Lexer method that stores to self) may be called by user code -- that is the documented extension point -- but never
+    by the library's own request path: a call of parse/split/format/the command line that reconfigures the shared lexer changes
+    the result of every later call in the process."""
+    from .cg import get_cg
+    repo = ctx.repo
+    cg = get_cg(ctx)
+    L = repo.classes.get(LEXER)
+    ctx.need(L is not None, 'Lexer class not found')
+    config = set()
+    for m in L.methods.values():
+        if m.name in ('__init__', 'get_default_instance'):
+            continue
+        stores = any(isinstance(t, (ast.Attribute, ast.Subscript)) and isinstance(t.ctx, ast.Store) and is_name(_root(t), 'self')
+                     for n in own_nodes(m.node) if isinstance(n, (ast.Assign, ast.AugAssign)) for t0 in (n.targets if isinstance(n, ast.Assign) else [n.target])
+                     for t in ast.walk(t0))
+        mutates = any(isinstance(n, ast.Call) and isinstance(n.func, ast.Attribute) and n.func.attr in ('append', 'extend', 'insert', 'pop', 'remove', 'clear', 'update')
+                      and is_name(_root(n.func.value), 'self') for n in own_nodes(m.node))
+        calls_config = False
+        if stores or mutates:
+            config.add(m.qname)
+    # transitive: a method that calls a configuration method on self
+    changed = True
+    while changed:
+        changed = False
+        for m in L.methods.values():
+            if m.qname in config or m.name in ('__init__', 'get_default_instance'):
+                continue
+            if any(c in config for c in cg.edges.get(m.qname, ())):
+                config.add(m.qname)
+                changed = True
+    ctx.info['lexer_configuration_methods'] = sorted(q.rsplit('.', 1)[1] for q in config)
+    allowed_caller = f'{LEXER}.get_default_instance'
+    reach = set()
+    for q in entries:
+        reach |= cg.reachable([q])
+    n = 0
+    for q in sorted(reach):
+        if q == allowed_caller or q in config:
+            continue
+        f = repo.funcs.get(q)
+        if f is None:
+            continue
+        for call, callees in cg.sites.get(q, []):
+            hit = [c for c in callees if (c if isinstance(c, str) else getattr(c, 'qname', None)) in config]
+            # also by name: <anything>.add_keywords(...) on an object obtained from get_default_instance()
+            byname = isinstance(call.func, ast.Attribute) and call.func.attr in {x.rsplit('.', 1)[1] for x in config} and 'get_default_instance' in src(call.func.value)
+            if hit or byname:
+                n += 1
+                ctx.ob(rid, f'reconfigures:{f.short}:{src(call)[:60]}', f'{f.mod.relpath}:{call.lineno}',
+                       'the request path does not reconfigure the process-wide lexer', False,
+                       f'`{src(call)[:80]}` in {f.short} (reachable from the entry points) changes the rule table / keyword dictionaries of the shared default '
+                       f'lexer and never restores them: every later parse/split/format in the process lexes differently')
+    ctx.ob(rid, 'reconfigures:inventory', 'sqlparse/lexer.py', f'{len(config)} configuration methods of Lexer; {len(reach)} functions reachable from the entry points examined, '
+           f'{n} call(s) found', True)
+
+
+def _root(e):
+    while isinstance(e, (ast.Attribute, ast.Subscript, ast.Call)):
+        e = e.func if isinstance(e, ast.Call) else e.value
+    return e
